@@ -5,6 +5,7 @@ import (
 	"fmt"
 	"os"
 	"os/signal"
+	"strings"
 	"syscall"
 
 	"github.com/hedzr/logg/slog"
@@ -161,8 +162,12 @@ func c13addOnly(c *Ctx) {
 		setFormat(lg, f)
 		lg.SetLevel(slog.AlwaysLevel)
 		desc := map[string]any{"format": f.String(), "added_normal_destinations": nN, "added_error_destinations": nE, "failing": fmt.Sprintf("N%d", bad), "built_with": "AddWriter / AddErrorWriter only (the standard devices stay)"}
-		for ci, sev := range []slog.Level{slog.InfoLevel, slog.ErrorLevel, slog.InfoLevel, slog.WarnLevel, slog.DebugLevel} {
+		for ci, sev := range []slog.Level{slog.InfoLevel, slog.ErrorLevel, slog.InfoLevel, slog.WarnLevel, slog.DebugLevel, slog.InfoLevel} {
 			id := fmt.Sprintf("#ao%d-%d#", idx, ci)
+			big := ""
+			if ci == 5 {
+				big = strings.Repeat("0123456789abcdef", 4400) + "#end-of-the-record#" // (a record of more than 64 KiB)
+			}
 			log.Reset()
 			m1, m2 := fds.mark()
 			panicked := ""
@@ -173,7 +178,7 @@ func c13addOnly(c *Ctx) {
 					}
 				}()
 				c.R.JournalNote(fmt.Sprintf("addonly %v sev=%v %s", desc, sev, id))
-				lg.LogAttrs(bg, sev, "rec "+id, "k", ci)
+				lg.LogAttrs(bg, sev, "rec "+id, "k", ci, "zbig", big)
 			}()
 			sig := func(clause string) string { return "C13/" + clause + "/add-only/" + className(sev) }
 			if panicked != "" {
@@ -190,6 +195,10 @@ func c13addOnly(c *Ctx) {
 					diags[e.W]++
 				} else if bytes.Contains(e.Data, []byte(id)) {
 					own[e.W]++
+					if e.W != fmt.Sprintf("N%d", bad) && (!bytes.HasSuffix(e.Data, []byte("\n")) || (big != "" && !bytes.Contains(e.Data, []byte("#end-of-the-record#")))) {
+						c.R.Violation(idx, "other-destinations", sig("other-destinations"), fmt.Sprintf("the healthy destination %s was handed %d bytes of a record of %d+ bytes (no end of record): ...%s", e.W, len(e.Data), len(big), q(string(e.Data[max0(len(e.Data)-60):]))), desc)
+						return
+					}
 				}
 			}
 			own["stdout"], own["stderr"] = bytes.Count(b1, []byte(id)), bytes.Count(b2, []byte(id))
